@@ -16,6 +16,7 @@ import (
 	"os"
 	"reflect"
 	"strings"
+	"sync/atomic"
 	"time"
 
 	"github.com/varlink/go/varlink"
@@ -61,8 +62,9 @@ func c03tDocs(tier string) []string {
 func c03tDir() string { return fmt.Sprintf("c03t-%d", *flagShard) }
 
 type c03tEcho struct {
-	got []string
-	seq []string
+	got     []string
+	seq     []string
+	handled atomic.Int64 // calls whose parameters the handler has read (oneway calls have no reply to wait for)
 }
 
 func (e *c03tEcho) VarlinkGetName() string        { return "t.r" }
@@ -73,7 +75,15 @@ func (e *c03tEcho) VarlinkDispatch(ctx context.Context, c varlink.Call, method s
 		e.got = append(e.got, "ERR:"+err.Error())
 	} else {
 		e.got = append(e.got, string(raw))
+		// reading is not consuming: a second look at the same call (a generic front end decodes, then the typed
+		// handler does) yields the same parameters
+		var again json.RawMessage
+		c2 := c
+		if err := c2.GetParameters(&again); err != nil || string(again) != string(raw) {
+			e.got = append(e.got, fmt.Sprintf("SECOND-READ-DIFFERS: %s (err %v)", string(again), err))
+		}
 	}
+	e.handled.Add(1)
 	switch method {
 	case "Echo":
 		return c.Reply(ctx, raw)
@@ -139,7 +149,7 @@ func c03OneShot(args []string) int {
 type stdioWriter struct{}
 
 func (stdioWriter) Write(ctx context.Context, b []byte) (int, error) { return os.Stdout.Write(b) }
-func (stdioWriter) Read(ctx context.Context, b []byte) (int, error) { return 0, io.EOF }
+func (stdioWriter) Read(ctx context.Context, b []byte) (int, error)  { return 0, io.EOF }
 func (stdioWriter) ReadBytes(ctx context.Context, d byte) ([]byte, error) {
 	return nil, io.EOF
 }
@@ -224,6 +234,24 @@ func c03tRun(in c03tInput) (msg, key string, infra bool, cases int) {
 			echo.got = echo.got[:0]
 			var out json.RawMessage
 			var err error
+			if i == len(in.Docs)-1 && in.Transport != "bridge" {
+				// the last document travels oneway and the client closes at once: the handler still reads it
+				before := echo.handled.Load()
+				if _, err = conn.Send(ctx, "t.r.Echo", json.RawMessage(doc), varlink.Oneway); err != nil {
+					return fmt.Sprintf("%s: oneway Send of %s failed: %v", in.Transport, short(doc), err), "symptom=call-failed transport=" + in.Transport, false, cases
+				}
+				conn.Close()
+				for t0 := time.Now(); echo.handled.Load() == before; time.Sleep(200 * time.Microsecond) {
+					if time.Since(t0) > 30*time.Second {
+						return fmt.Sprintf("%s: document %s sent oneway (then Close) never reached the handler", in.Transport, short(doc)), "symptom=oneway-call-lost transport=" + in.Transport, false, cases
+					}
+				}
+				cases++
+				if len(echo.got) != 1 || !rawJSONEqualB([]byte(echo.got[0]), []byte(doc)) {
+					return fmt.Sprintf("%s: document %s sent oneway: the handler read %s", in.Transport, short(doc), short(strings.Join(echo.got, "|"))), "symptom=value-changed transport=" + in.Transport, false, cases
+				}
+				continue
+			}
 			if i%2 == 0 {
 				err = conn.Call(ctx, "t.r.Echo", json.RawMessage(doc), &out)
 			} else {
@@ -338,6 +366,7 @@ func runC03T(tier string, r *Result) {
 		if !r.mine(i) || r.expired() {
 			continue
 		}
+		r.note(in)
 		msg, key, infra, cases := c03tRun(in)
 		r.Executions++
 		r.Nodes++
